@@ -251,7 +251,7 @@ def run(tier, seed):
     q = tier == "quick"
     cfg = make_cfg(seed, 2 if q else 3)
     t0 = time.time()
-    budget = 170 if q else 2400
+    budget = 600 if q else 2400
     fam, violations, samples = {}, [], []
     with parallel.make_pool("mc.props.c09", {"cfgs": {"c09": cfg}, "envs": ["old"]}) as pool:
         r = bfs(pool, cfg, 2 if q else 4, [], budget, t0)
